@@ -739,7 +739,7 @@ def derive_world(rng, tier, base, name, methods):
     mg = w["settings"]["elast"]["settings"]["mode_gamma"]
     changed = kind == "freqs"
     if rng.random() < 0.6:
-        q["T_MIN"] = rng.choice([50, 300]) if q["T_MIN"] == 0 else 0
+        q["T_MIN"] = rng.choice([50, 300]) if q.get("T_MIN", 0) == 0 else 0
         changed = True
     if rng.random() < 0.3:
         q["DT"] = rng.choice(W.DT_CHOICES)
@@ -848,6 +848,7 @@ def gen_scenario(prop, seed, tier, faults_enabled=None, nclients=None, segments_
             kw["system"] = rng.choice(SYSTEM_NAMES)
         kw["cli_spelling"] = not (prop == "C17" and rng.random() < 0.4)    # C17 also reads tables keyed c_11, cij11, C1122, ... (the fill COMMAND accepts cIJ/CIJ only)
         kw["full_output"] = prop == "C15" and rng.random() < 0.3
+        kw["noise"] = prop == "C17" and rng.random() < 0.3
         w = W.gen_world(rng, tier, n, **kw)
         w["static"]["cli_ok"] = kw["cli_spelling"]
         if prop == "C14" and rng.random() < 0.04:
